@@ -295,13 +295,13 @@ def run_recover(exe, lps, todo, tag, nobs=2, maxcrash=40, skip_lp_after_crash=Fa
     O, crashes, skipped = {}, [], set()
     rest = list(todo)
     while rest:
-        txt, last = "", None
+        parts, last = [], None
         for (k, rid, do) in rest:
             if k != last:
-                txt += lps[k].text(str(k)) + "\n"
+                parts.append(lps[k].text(str(k)) + "\n")
                 last = k
-            txt += do + "\n"
-        rc, out, err = lpgen.run_harness(exe, txt, tag)
+            parts.append(do + "\n")
+        rc, out, err = lpgen.run_harness(exe, "".join(parts), tag)
         for cid, runs in parse_obs(out).items():
             O.setdefault(cid, {}).update(runs)
         if rc == 0:
@@ -350,7 +350,7 @@ def main():
     S = sc.Session(ck, exe1, model1)
     J = Judge(ck)
     r = ck.rng
-    nlp, nmax, nrand, nexact = (60, 15, 1, 60) if ck.tier == "quick" else (1200, 25, 3, 600)
+    nlp, nmax, nrand, nexact = (60, 15, 1, 60) if ck.tier == "quick" else (300, 25, 2, 300)
     lps = []
     if ck.args.replay:
         rp = json.load(open(ck.args.replay))
@@ -386,31 +386,37 @@ def main():
             cfgs[k] = lpgen.load_corpus("C16")[k][1] + cfgs[k][:2]
 
     # ---- phase 1: unlimited solves with the trace
-    txt = ""
+    todo_u = []
     for k, p in enumerate(lps):
-        txt += p.text(str(k)) + "\n"
         for c, cfg in enumerate(cfgs[k]):
-            txt += "DO c%d.u new %s %s ; opt\n" % (c, TRACE, lpgen.cfg_text(cfg))
+            todo_u.append((k, "c%d.u" % c, "DO c%d.u new %s %s ; opt" % (c, TRACE, lpgen.cfg_text(cfg))))
             # with an objective limit set optimize() never presolves: the reference for that family is the solve without simplifier
-            txt += "DO c%d.v new %s %s simplifier=0 ; opt\n" % (c, TRACE, lpgen.cfg_text({a: b for a, b in cfg.items() if a != "simplifier"}))
-    rc, out, err = lpgen.run_harness(exe, txt, "C16-unl")
-    U = parse_obs(out)
-    if rc != 0:
-        ck.violation("crash:unlimited", "the harness crashed (rc=%d) during the unlimited solves: %s" % (rc, err[-300:]), {"kind": "crash"}, no_input=True)
+            todo_u.append((k, "c%d.v" % c, "DO c%d.v new %s %s simplifier=0 ; opt" % (c, TRACE, lpgen.cfg_text({a: b for a, b in cfg.items() if a != "simplifier"}))))
+    U, crashes_u, _ = run_recover(exe, lps, todo_u, "C16-unl", nobs=1)
+    for (k, rid, do, crc, got) in crashes_u:
+        # a crash of the solve without any limit is not a limit defect, but it must not go unnoticed
+        if k is None:
+            ck.violation("crash:harness", "the harness crashed (rc=%d) and the crashing run could not be identified" % crc, {"kind": "crash"}, no_input=True)
+        else:
+            c = int(rid.split(".")[0][1:])
+            J.viol("crash:unlimited", "the solver crashed (rc=%d) in a solve without any limit: %s" % (crc, do), lps[k], cfgs[k][c], "unlimited", do, [], {"kind": "crash", "rc": crc})
 
     # ---- phase 2: all limited solves
     plan = {}          # (k, c, runid) -> (family, parameter, do text)
     todo, todo_exact = [], []
-    mq = ""
+    mq = []
     pred_ids = {}
     for k, p in enumerate(lps):
         cl = classes[k]
         for c, cfg in enumerate(cfgs[k]):
             u = (U.get(str(k), {}).get("c%d.u" % c) or [None])[0]
             if u is None or u["status"] not in VERDICTS:
+                # no verdict without any limit (cycling, singular basis, an exception inside the solve): not a limit defect - it belongs to
+                # C01/C02 - recorded in the evidence, the pair is left out
                 ck.count("unlimited-not-solved:%s" % (u["status"] if u else "missing"))
-                if u is not None and cl is not None and u["status"] not in ("ABORT_CYCLING", "SINGULAR", "OPTIMAL_UNSCALED_VIOLATIONS"):
-                    J.viol("unlimited-no-verdict:%s" % u["status"], "the solve without any limit ends with %s under %s" % (u["status"], cfg), p, cfg, "unlimited", "", [u])
+                ck.cov.setdefault("reference_solves_without_verdict", [])
+                if u is not None and len(ck.cov["reference_solves_without_verdict"]) < 5:
+                    ck.cov["reference_solves_without_verdict"].append({"lp": p.text("ref"), "config": cfg, "status": u["status"], "log": u.get("log", "")[:300]})
                 continue
             if not J.verdict_ok(cl, u["status"]):
                 # a wrong verdict of the solve WITHOUT any limit is the subject of C01/C02 (e.g. the simplifier reports UNBOUNDED for an
@@ -427,13 +433,12 @@ def main():
             ck.count("trace:%s" % ("parsed" if tr else "not-parsed"))
 
             def add(rid, fam, par, steps, pred=None):
-                nonlocal mq
                 do = "DO c%d.%s %s" % (c, rid, steps)
                 todo.append((k, "c%d.%s" % (c, rid), do))
                 plan[(k, c, rid)] = (fam, par, do)
                 if pred is not None and tr is not None:
                     pid = "%d.%d.%s" % (k, c, rid)
-                    mq += "T %s %s solves=%s\n" % (pid, pred, "/".join(tr[0]))
+                    mq.append("T %s %s solves=%s\n" % (pid, pred, "/".join(tr[0])))
                     pred_ids[(k, c, rid)] = pid
             ks = list(range(0, N + 2))
             if len(ks) > 40:
@@ -502,7 +507,7 @@ def main():
         d = os.path.join(vlib.BUILD, "run")
         os.makedirs(d, exist_ok=True)
         f = os.path.join(d, "C16-model.%d.q" % os.getpid())
-        open(f, "w").write(mq)
+        open(f, "w").write("".join(mq))
         rcm, mout, merr = vlib.sh([model, f], timeout=3000)
         if not os.environ.get("VERIF_KEEP"):
             os.remove(f)
